@@ -46,7 +46,7 @@ def run_model(lines, timeout=1800):
 def correspond(targets):
     """targets: list of (module dir, patterns) -> dict(funcs, inferred, mism, errors, panics, nofuel, stats)"""
     res = dict(funcs=[], inferred=0, mism=[], errors=[], panics=[], nofuel=[], maxblocks=0, with_branch=0, with_phi=0,
-               plain=0, illformed=[], unstable=[], inferred_plain=0, inferred_validated=0, unvalidated=[])
+               plain=0, semiplain=0, inferred_semiplain=0, illformed=[], unstable=[], inferred_plain=0, inferred_validated=0, unvalidated=[])
     for d, pats in targets:
         fs, err = dump(d, pats)
         if fs is None:
@@ -60,17 +60,19 @@ def correspond(targets):
         res["errors"].append("bin/modelrun infer failed: rc=%s, %d answers for %d functions: %s" % (rc, len(out), len(res["funcs"]), err[-300:]))
         return res
     for f, mm in zip(res["funcs"], out):
-        m, bits = mm[0], (mm[1] if len(mm) > 1 else "0000")
-        is_plain, is_wf, is_stable, is_checked = (c == "1" for c in bits)
+        m, bits = mm[0], (mm[1] if len(mm) > 1 else "00000")
+        is_plain, is_wf, is_stable, is_checked, is_semi = (c == "1" for c in bits)
         res["plain"] += is_plain
+        res["semiplain"] += is_semi
         if not is_wf:
             res["illformed"].append(f)
         if not is_stable:
             res["unstable"].append(f)
         if m == "I":
             res["inferred_plain"] += is_plain
+            res["inferred_semiplain"] += is_semi
             res["inferred_validated"] += is_checked
-            if is_plain and is_wf and not is_checked:
+            if not is_checked:
                 res["unvalidated"].append(f)
         res["inferred"] += bool(f["Inferred"])
         res["maxblocks"] = max(res["maxblocks"], len(f["Blocks"]))
